@@ -272,6 +272,22 @@ var Corpus = []Scenario{
 		x.Ann("c-unpaused", "true")
 		x.D.Converge(40)
 	}},
+	{"canary-slowstart-cannotstart", []string{"C06", "C08", "C14"}, func(x Scn) {
+		sc := CanaryStrategy("2")
+		sc.APMaxSlowStart, sc.AFTimeout = 2, 12
+		x.Setup(4, "A", sc)
+		x.Template("B")
+		ps := x.AwaitCanaryPods(8)
+		if len(ps) > 0 {
+			x.K("KWaiting", "#", ps[0], "ErrImagePull")
+		}
+		x.Rounds(1)
+		x.Rounds(3)
+		x.Ann("c-paused", "false")
+		x.Ann("c-unpaused", "true")
+		x.Rounds(2)
+		x.D.Converge(60)
+	}},
 	{"canary-autopause-restarts", []string{"C06", "C08", "C05", "C14"}, func(x Scn) {
 		x.Setup(3, "A", CanaryStrategy("1"))
 		x.Template("B")
